@@ -113,7 +113,7 @@ def ITE(c, a, b):
     if is_sym(c) and (is_sym(a) or is_sym(b)):
         # counters updated under one guard (x += 1 ... x -= 1 inside `if g:`) would otherwise pile up as
         # If(g, If(g, x+1, x)-1, If(g, x+1, x)): specialise both arms on the guard first (bounded depth)
-        a2, b2 = _assume(a, c, True, 4), _assume(b, c, False, 4)
+        a2, b2 = _assume(a, c, True, 2), _assume(b, c, False, 2)
         if a2 is not a or b2 is not b:
             a2 = _simp(a2)
             b2 = _simp(b2)
@@ -140,12 +140,10 @@ def _assume(e, c, val, depth):
         if z3.is_app_of(e, z3.Z3_OP_ITE) and e.arg(0).eq(c):
             return _assume(e.arg(1) if val else e.arg(2), c, val, depth - 1)
         k = e.decl().kind()
-        if k in (z3.Z3_OP_ADD, z3.Z3_OP_SUB, z3.Z3_OP_ITE):
+        if k in (z3.Z3_OP_ADD, z3.Z3_OP_SUB):
             kids = [e.arg(i) for i in range(e.num_args())]
             new = [_assume(x, c, val, depth - 1) for x in kids]
             if any(n is not o for n, o in zip(new, kids)):
-                if k == z3.Z3_OP_ITE:
-                    return z3.If(new[0], new[1], new[2])
                 acc = new[0]
                 for n in new[1:]:
                     acc = (acc + n) if k == z3.Z3_OP_ADD else (acc - n)
